@@ -31,6 +31,7 @@ var vPool4 = []vNet{
 	{"255.255.255.255", [16]byte{12: 255, 13: 255, 14: 255, 15: 255}, 32, false},
 	{"10.1.2.2/31", [16]byte{12: 10, 13: 1, 14: 2, 15: 2}, 31, false},
 	{"128.0.0.0/1", [16]byte{12: 128}, 1, false},
+	{"10.0.0.0/24", [16]byte{12: 10}, 24, false}, // same network address as 10.0.0.0/8, narrower
 }
 
 var vPool6 = []vNet{
@@ -39,6 +40,7 @@ var vPool6 = []vNet{
 	{"2001:db8::/32", [16]byte{0: 0x20, 1: 0x01, 2: 0x0d, 3: 0xb8}, 32, true},
 	{"2001:db8:0:1::/64", [16]byte{0: 0x20, 1: 0x01, 2: 0x0d, 3: 0xb8, 7: 1}, 64, true},
 	{"::/0", [16]byte{}, 0, true},
+	{"2001:db8::/64", [16]byte{0: 0x20, 1: 0x01, 2: 0x0d, 3: 0xb8}, 64, true}, // same network address as 2001:db8::/32, narrower
 }
 
 var vClient net.IP
